@@ -27,10 +27,10 @@ func init() {
 
 type c15Child struct{ key, ver, cs, lat, lon, orient int64 }
 type c15Upd struct {
-	idx              int
-	ver, ts, cs      int64
-	lat, lon         int64
-	rev              bool
+	idx         int
+	ver, ts, cs int64
+	lat, lon    int64
+	rev         bool
 }
 
 func c15Parse(f []string) (cs []c15Child, us []c15Upd, ok bool) {
